@@ -46,7 +46,33 @@ def pool(tier, seed):
                       soil_names=["Clay", "ClayLoam", "SiltClay", "Paddy", "Loam"])
         if i % 4 == 3:
             kw.update(methods=(3,))
-        specs.append(gen.config(rng, **kw))
+        sp = gen.config(rng, **kw)
+        if i % 10 == 6:
+            # calendar-day tuber crop converted to thermal time over the whole window (SwitchGDD=1)
+            sp["crop"]["name"] = gen.pick(rng, ["Potato", "SugarBeet"])
+            sp["crop"]["kw"] = dict(sp["crop"].get("kw", {}), SwitchGDD=1)
+            sp["crop"]["harvest"] = None
+            if sp["weather"]["kind"] == "synth":
+                sp["weather"]["regime"] = gen.pick(rng, ["warm", "temperate", "humid"])
+            # the conversion needs every season of the window to reach maturity (defect D24: a
+            # truncated last season raises IndexError in prepare_gdd): end shortly after a harvest
+            import datetime as dt
+
+            m, d_ = [int(x) for x in sp["crop"]["planting"].split("/")]
+            s0 = S.d(sp["start"])
+            p0 = dt.date(s0.year, m, d_)
+            if p0 < s0:
+                p0 = dt.date(s0.year + 1, m, d_)
+            ns = int(rng.integers(1, 3))
+            endd = gen.add_years(p0, ns - 1) + dt.timedelta(days=gen.crop_len_days(sp["crop"]["name"]) + 40)
+            if sp["weather"]["kind"] == "file":
+                sp["weather"] = {"kind": "synth", "seed": int(rng.integers(0, 2 ** 31 - 1)), "regime": "warm"}
+            sp["end"] = gen.fmt(endd)
+            if sp.get("gw"):
+                sp["gw"] = {"method": "Constant", "dates": [sp["start"]], "values": [sp["gw"]["values"][0]]}
+            if sp["irr"]["method"] == 3:
+                sp["irr"] = {"method": 0, "kw": {}, "schedule": None}
+        specs.append(sp)
     return specs
 
 
@@ -78,7 +104,30 @@ def sibling(sp, rng, kind):
             a["irr"] = {"method": int(gen.pick(rng, [0, 1, 2, 4, 5])), "kw": {"SMT": [55.0] * 4, "IrrInterval": 4, "depth": 6.0,
                                                                              "NetIrrSMT": 60.0}, "schedule": None}
     elif kind == "crop_kw":
-        a["crop"]["kw"] = dict(a["crop"].get("kw", {}), PlantMethod=int(rng.integers(0, 2)), ETadj=int(rng.integers(0, 2)))
+        hi0 = float(common.crop_catalogue()[a["crop"]["name"]]["HI0"])
+        a["crop"]["kw"] = dict(a["crop"].get("kw", {}), PlantMethod=int(rng.integers(0, 2)), ETadj=int(rng.integers(0, 2)),
+                               HI0=round(hi0 * float(gen.pick(rng, [0.96, 0.98, 1.02])), 4))
+    elif kind == "planting":
+        # same window, the crop planted three to six weeks later
+        import datetime as dt
+
+        m, d_ = [int(x) for x in a["crop"]["planting"].split("/")]
+        p2 = dt.date(2001, m, d_) + dt.timedelta(days=int(gen.pick(rng, [21, 30, 45])))
+        if not (p2.month == 2 and p2.day == 29):
+            a["crop"]["planting"] = f"{p2.month:02d}/{p2.day:02d}"
+        a["crop"]["harvest"] = None
+    elif kind == "subsoil":
+        # identical surface compartment, different soil underneath
+        hyd = gen.layer_hyd(a["soil"])
+        if a["soil"]["type"] != "custom" and len(hyd) == 1:
+            ks = {"Clay": 35, "ClayLoam": 125, "Default": 500, "Loam": 500, "LoamySand": 2200, "Sand": 3000, "SandyClay": 35,
+                  "SandyClayLoam": 225, "SandyLoam": 1200, "Silt": 500, "SiltClayLoam": 150, "SiltLoam": 575, "SiltClay": 100}[a["soil"]["type"]]
+            wp, fc, ts = hyd[0]
+            other = gen.pick(rng, [h for h in gen.HYD_LIBRARY if abs(h[1] - fc) > 0.05])
+            a["soil"] = {"type": "custom", "kw": {"dz": [0.1] * 12, "cn": 61.0},
+                         "layers": [{"thickness": 0.1, "thWP": wp, "thFC": fc, "thS": ts, "Ksat": float(ks), "pen": 100.0},
+                                    {"thickness": 2.0, "thWP": other[0], "thFC": other[1], "thS": other[2], "Ksat": other[3], "pen": 100.0}]}
+            a["iwc"] = {"wc_type": "Prop", "method": "Layer", "depth_layer": [1, 2], "value": ["FC", "FC"]}
     elif kind == "co2":
         a["co2"] = {"constant": float(gen.pick(rng, [300.0, 600.0, 900.0]))}
     elif kind == "iwc":
@@ -92,7 +141,7 @@ def sibling(sp, rng, kind):
     return a
 
 
-SIBLING_KINDS = ["weather", "soil", "irr", "crop_kw", "co2", "iwc", "gw", "fm"]
+SIBLING_KINDS = ["weather", "soil", "irr", "crop_kw", "co2", "iwc", "gw", "fm", "planting", "subsoil"]
 
 
 def cases(tier, seed):
@@ -120,7 +169,7 @@ def cases(tier, seed):
             plan = [(o, True) for o in others] + [(b, True)]
         out.append({"kind": "seq", "b": b, "plan": [{"spec": specs[k], "run": r, "idx": k} for k, r in plan]})
     # near-identical predecessors: same dates and crop, one factor changed
-    nsib = base.n_cases(96, 1200, tier)
+    nsib = base.n_cases(120, 1500, tier)
     for j in range(nsib):
         b = j % n
         kind = SIBLING_KINDS[(j // n) % len(SIBLING_KINDS)] if j >= n else "weather"
